@@ -8,7 +8,8 @@ No pyyeti imports.  Everything is written from the documented behaviour:
   sample iff it differs from the one before it.  Plain Python loops on Python floats.
 * :func:`subtol_runs`     -- facts about runs of consecutive sub-tolerance steps
   (mechanism tags for the known drift defect).
-* :func:`auto_edges`      -- the documented ``getbins`` recipe for scalar ``bins``.
+* :func:`auto_edges`      -- the ``getbins`` rule for scalar ``bins`` (0.1% pad, at least
+  one float spacing).
 * :func:`interval_table`  -- interval-membership binning with the documented
   ``(a, b]`` / ``[a, b)`` rule (loop over cycles and edges, no digitize).
 * :func:`sdof_response`   -- exact sampled response of a base-driven oscillator to a
@@ -82,12 +83,13 @@ def subtol_runs(y, tol):
 
     A run is an anchor sample followed by samples each within ``stol`` of its
     predecessor (at least one non-zero step); the excursion is max-min over anchor
-    and followers.  Returns (stol, largest excursion, number of runs with excursion
-    > stol)."""
+    and followers.  Returns (stol, largest excursion, number of non-zero sub-tolerance
+    steps)."""
     y = [float(v) for v in y]
     stol = _stol(y, tol)
-    worst, nbad = 0.0, 0
+    worst = 0.0
     i, n = 0, len(y)
+    nsub = sum(1 for k in range(n - 1) if 0 < abs(y[k + 1] - y[k]) <= stol)
     while i < n - 1:
         j = i
         lo = hi = y[i]
@@ -98,12 +100,10 @@ def subtol_runs(y, tol):
         if j > i:
             ex = hi - lo
             worst = max(worst, ex)
-            if ex > stol:
-                nbad += 1
             i = j
         else:
             i += 1
-    return stol, worst, nbad
+    return stol, worst, nsub
 
 
 def first_significant_change(y, tol):
@@ -140,8 +140,10 @@ def mask_predicates(y, mask, tol):
 # -- bins ---------------------------------------------------------------------------
 
 def auto_edges(nbins, mx, mn, right):
-    """Documented getbins recipe for scalar ``bins`` (uses numpy.linspace as the
-    docstring does)."""
+    """getbins rule for scalar ``bins``: ``linspace(mn, mx, bins+1)`` with the closed-out
+    end moved outwards by 0.1% of the range -- and by at least one float spacing, so
+    that the extreme value always lies inside the half-open bins (equal mx, mn are
+    first reset to mx+0.5, mn-0.5)."""
     mx, mn = float(mx), float(mn)
     if mx < mn:
         mx, mn = mn, mx
@@ -150,10 +152,25 @@ def auto_edges(nbins, mx, mn, right):
     bb = np.linspace(mn, mx, int(nbins) + 1)
     p = 0.001 * (mx - mn)
     if right:
-        bb[0] -= p
+        lo = bb[0] - p
+        one_below = math.nextafter(mn, -math.inf)
+        bb[0] = lo if lo < one_below else one_below
     else:
-        bb[-1] += p
+        hi = bb[-1] + p
+        one_above = math.nextafter(mx, math.inf)
+        bb[-1] = hi if hi > one_above else one_above
     return bb
+
+
+def pad_below_ulp(mx, mn, right):
+    """True when the 0.1% pad of the automatic bins is too small to move the edge."""
+    mx, mn = float(mx), float(mn)
+    if mx < mn:
+        mx, mn = mn, mx
+    elif mx == mn:
+        mx, mn = mx + 0.5, mn - 0.5
+    p = 0.001 * (mx - mn)
+    return (mn - p == mn) if right else (mx + p == mx)
 
 
 def covers(edges, mx, mn, right):
